@@ -170,6 +170,13 @@ class C16(Prop):
         return j
 
     def shrink_candidates(self, c):
+        if c.get('session'):
+            cfg = c['cfg']
+            for cut in (10, 3, 1):
+                if cfg['end'] - cut * 86400 > cfg['start']:
+                    d = dict(c); d['cfg'] = dict(cfg, end=cfg['end'] - cut * 86400)
+                    yield d
+            return
         apps = c['appends']
         step = max(1, len(apps) // 10)
         for i in range(0, len(apps), step):
